@@ -97,7 +97,7 @@ class CoreSummaries:
         g['delta'] = VInt(g['delta'].t + sign * eff)
         if sign < 0:
             # B2: a node releases only what it holds
-            held0 = self.held(I, self.pre_state)
+            held0 = self.own_pre(I)
             I.oblige('release_only_what_is_held', held0 + g['delta'].t >= 0, kind='callsite',
                      note='B2: own holds (held at entry + own retains - own releases) would become negative')
             I.st.obligations[-1].props = ['C05', 'C04', 'C16']
@@ -111,6 +111,9 @@ class CoreSummaries:
         return self._refs_effect(I, args, kwargs, -1)
 
     held_text = None
+
+    def own_pre(self, I):
+        return self.held(I, self.pre_state)
 
     def held(self, I, st):
         """Abstraction function: how many holds on the counter R the node legitimately keeps in state st."""
